@@ -44,6 +44,7 @@ REG.spec('task.py:Task._update',
       ('uid-kept', 'self._uid == old(self._uid)'),
       ('state-known', 'is_tstate(self._state)'),
       ('pilot-kept-or-set', 'self._pilot == old(self._pilot) or self._pilot == task_dict.pilot'),
+      ('pilot-kept-unless-given', 'implies(task_dict.pilot is None, self._pilot == old(self._pilot))'),
       ('detail-kept-or-set', 'implies(old(self._state) not in [DONE, FAILED] and task_dict.exception_detail is not None, self._exception_detail == task_dict.exception_detail)'),
     ],
     exc_ensures = {'RuntimeError': [('unchanged-on-error', 'self == old(self)')],
@@ -80,6 +81,7 @@ REG.spec('task_manager.py:TaskManager._update_tasks',
     modifies = ['self._tasks', 'task_dicts', 'cb_log'],
     # C06: no notification batch, however contradictory, raises
     raises   = {},
+    no_raise_is_property = True,
     ensures  = [
       ('ds-invariant', 'tmgr_inv(self._tasks, self._task_info)'),
       ('same-tasks', 'forall(lambda u: indom(self._tasks, u) == indom(old(self._tasks), u), Str)'),
@@ -171,3 +173,79 @@ REG.spec('task_manager.py:TaskManager._update_tasks',
     },
     opts = dict(no_merge=True),
     serves = ['C06'])
+
+
+# ------------------------------------------------------------------------------
+# C13: TaskManager._pilot_state_cb
+#
+from .types import PilotObj
+from .effects import nondet_bool
+
+# a task is doomed by the notification if it is bound to one of the notified
+# pilots that is final, and is not final itself
+REG.define('dies_with(t, pilots)',
+    'exists(lambda i: 0 <= i < len(pilots) and pilots[i]._state in FINAL and '
+    't._pilot == pilots[i]._uid)')
+
+_c13_post = [
+  ('own-tasks-fail',
+   'forall(lambda u: implies(indom(self._tasks, u) and '
+   'at(old(self._tasks), u)._state not in FINAL and '
+   'dies_with(at(old(self._tasks), u), PS), '
+   'at(self._tasks, u)._state == FAILED and '
+   'at(self._tasks, u)._exception_detail == "pilot %s is final" % val(at(old(self._tasks), u)._pilot)), Str)'),
+  ('final-tasks-keep-state',
+   'forall(lambda u: implies(indom(self._tasks, u) and at(old(self._tasks), u)._state in FINAL, '
+   'at(self._tasks, u)._state == at(old(self._tasks), u)._state), Str)'),
+  ('tasks-of-other-pilots-untouched',
+   'forall(lambda u: implies(indom(self._tasks, u) and not dies_with(at(old(self._tasks), u), PS), '
+   'at(self._tasks, u) == at(old(self._tasks), u)), Str)'),
+  ('same-tasks', 'forall(lambda u: indom(self._tasks, u) == indom(old(self._tasks), u), Str)'),
+]
+
+from .effects import read_field
+
+# what one pilot's end does to one task (o: the task before, t: after)
+REG.define('c13_step(o, t, pid)',
+    'ite(o._pilot == pid, '
+    't._uid == o._uid and t._pilot == o._pilot and '
+    'ite(o._state not in FINAL, t._state == FAILED and '
+    't._exception_detail == "pilot %s is final" % pid, t._state == o._state), '
+    't == o)')
+
+REG.spec('task_manager.py:TaskManager._pilot_state_cb',
+    params   = dict(pilots=T.Union(PilotObj, T.List(PilotObj)), state=OStr),
+    defaults = dict(state=None),
+    self     = dict(_tasks=TaskMap, _task_info=T.Map(T.Str, T.Any),
+                    _closed=T.Bool, _terminating=T.Bool),
+    returns  = T.Bool,
+    locals   = dict(tasks=T.List(TaskObj)),
+    calls    = {'self._terminate.is_set': read_field('self._terminating')},
+    effects  = {'self.advance': ignore_call},
+    requires = ['tmgr_inv(self._tasks, self._task_info)',
+                'not self._closed', 'not self._terminating',
+                # notified pilots are distinct objects with distinct ids
+                'forall(lambda i, j: implies(0 <= i < j < len(aslist(pilots)), '
+                'aslist(pilots)[i]._uid != aslist(pilots)[j]._uid))'],
+    modifies = ['self._tasks'],
+    raises   = {},
+    ensures  = [(n, t.replace('PS', 'aslist(pilots)')) for n, t in _c13_post] +
+               [('ds-invariant', 'tmgr_inv(self._tasks, self._task_info)')],
+    loops    = {
+      '1':   ['forall(lambda u: indom(self._tasks, u) == indom(old(self._tasks), u), Str)',
+              'tmgr_inv(self._tasks, self._task_info)',
+              # tasks of pilots already handled are failed, the rest untouched
+              'forall(lambda u: implies(indom(self._tasks, u), '
+              'at(self._tasks, u)._pilot == at(old(self._tasks), u)._pilot and '
+              'ite(exists(lambda i: 0 <= i < i_pilot and pilots[i]._state in FINAL and at(old(self._tasks), u)._pilot == pilots[i]._uid), '
+              'ite(at(old(self._tasks), u)._state not in FINAL, at(self._tasks, u)._state == FAILED and '
+              'at(self._tasks, u)._exception_detail == "pilot %s is final" % val(at(old(self._tasks), u)._pilot), '
+              'at(self._tasks, u)._state == at(old(self._tasks), u)._state), '
+              'at(self._tasks, u) == at(old(self._tasks), u))), Str)'],
+      '1.1': ['forall(lambda u: indom(self._tasks, u) == indom(old(self._tasks), u), Str)',
+              'tmgr_inv(self._tasks, self._task_info)',
+              'pid == pilot._uid', 'state == pilot._state',
+              'forall(lambda j: implies(0 <= j < i_task, c13_step(at(at_head("1", self._tasks), keys_task[j]), at(self._tasks, keys_task[j]), pid)))',
+              'forall(lambda j: implies(i_task <= j < len(keys_task), at(self._tasks, keys_task[j]) == at(at_head("1", self._tasks), keys_task[j])))'],
+    },
+    serves   = ['C13'])
